@@ -224,6 +224,18 @@ func storedValues(a *E3, fn *ssa.Function, targetPred func(O) bool) []storedValu
 						}
 						continue
 					}
+					if val, isVal := in.(ssa.Value); isVal && cc.StaticCallee() != nil && a.inPkg(cc.StaticCallee()) && cc.Signature().Recv() == nil &&
+						cc.Signature().Variadic() && a.isContainerish(val.Type()) && targetPred(a.get(val)&oROOTS) {
+						// a constructor that fills the container it returns from its values (NewList(values...), NewObject(pairs...))
+						for _, v := range cc.Args {
+							o := a.get(v) | a.cell[a.cellOf(v)]
+							if sl, ok := v.(*ssa.Slice); ok {
+								o |= a.cell[a.cellOf(sl.X)]
+							}
+							out = append(out, storedValue{x.Pos(), "value given to " + cc.StaticCallee().Name(), o, v})
+						}
+						continue
+					}
 					for _, cal := range a.Callees(cc) {
 						s := a.sum[cal]
 						if s == nil || !s.MutRecv || !a.inPkg(cal) {
